@@ -1,10 +1,222 @@
 import Driver.Common
-/-! C20 driver (stub: answers bad-op until the property's model is wired in). -/
-open Driver
+import Sourmash.Model.Ffi
+import Sourmash.Generated.C20
+/-! C20 driver: the error-channel state machine (`Sourmash.Ffi`) instantiated with the generated
+error kinds and codes.
 
-def stepC20 (s : Unit) (ws : List String) : Unit × Resp :=
+* `case … seq` + step lines: one thread's history; the model column is the code the state machine
+  reports after the step, the spec column is `specLast` (scan of the history since `sourmash_init`).
+* `call <fn> <cls> <cmp|nocmp> <seed>`: one export in a fresh process after `sourmash_init`.
+  `bodyOutcome` says what the body of `<fn>` does on arguments of class `<cls>` (value / which
+  `Err` / panic); whether `<fn>` has a landing pad comes from the generated export table.
+  Model column: the code as it is (an unguarded panic is `abort`); spec column: what C20 demands
+  (`ret`, zeroed value, documented code, non-empty message, clear resets). -/
+open Driver Sourmash.Ffi Sourmash.Generated.C20
+
+abbrev K := ErrKind
+abbrev Out := Outcome K Unit
+
+/-- the steps of a sequence, as concrete calls whose outcome follows from their arguments -/
+def seqCall : String → Option (Call K)
+  | "init" => some .init
+  | "clear" => some .clear
+  | "code" => some .getCode
+  | "msg" => some .getMessage
+  | "backtrace" => some .getBacktrace
+  | "merge_mismatch_ksize" => some (.exported true (.err .MismatchKSizes))
+  | "merge_mismatch_moltype" => some (.exported true (.err .MismatchDNAProt))
+  | "merge_mismatch_scaled" => some (.exported true (.err .MismatchScaled))
+  | "merge_mismatch_seed" => some (.exported true (.err .MismatchSeed))
+  | "add_seq_invalid" => some (.exported true (.err .InvalidDNA))
+  | "hll_add_seq_invalid" => some (.exported true (.err .InvalidDNA))
+  | "sig_add_seq_invalid" => some (.exported true (.err .InvalidDNA))
+  | "translate_codon_len5" => some (.exported true (.err .InvalidCodonLength))
+  | "hash_function_set_nonempty" => some (.exported true (.err .NonEmptyMinHash))
+  | "enable_abundance_nonempty" => some (.exported true (.err .NonEmptyMinHash))
+  | "hll_bad_error_rate" => some (.exported true (.err .HLLPrecisionBounds))
+  | "hll_merge_mismatch_ksize" => some (.exported true (.err .MismatchKSizes))
+  | "hll_merge_mismatch_p" => some (.exported true (.err .MismatchNum))
+  | "angular_needs_abund" => some (.exported true (.err .NeedsAbundanceTracking))
+  | "count_common_num_vs_scaled" => some (.exported true (.err .MismatchScaled))
+  | "load_sigs_bad_json" => some (.exported true (.err .SerdeError))
+  | "str_from_cstr_bad_utf8" => some (.exported true (.err .Utf8Error))
+  | "first_mh_empty_sig" => some (.exported true (.err .Internal))
+  | "ng_from_path_missing" => some (.exported true (.err .NifflerError))
+  | "zip_missing" => some (.exported true (.err .IOError))
+  | "ng_from_buffer_empty" => some (.exported true (.err .NifflerError))
+  | "get_abunds_no_track" => some (.exported true .panic)
+  | "hll_update_mh_default" => some (.exported true .panic)
+  | "load_sigs_bad_moltype" => some (.exported true .panic)
+  | "ng_from_buffer_garbage" => some (.exported true .panic)
+  | "ok_add_hash" => some (.exported false (.ok ()))
+  | "ok_merge" => some (.exported true (.ok ()))
+  | "ok_get_mins" => some (.exported true (.ok ()))
+  | "ok_md5sum" => some (.exported true (.ok ()))
+  | "ok_add_seq" => some (.exported true (.ok ()))
+  | "ok_add_seq_force" => some (.exported true (.ok ()))
+  | "ok_is_compatible_false" => some (.exported false (.ok ()))
+  | "ok_isect_union_mismatch" => some (.exported true (.ok ()))
+  | "ok_hll_cardinality" => some (.exported false (.ok ()))
+  | "ok_ng_count" => some (.exported false (.ok ()))
+  | "ok_sig_json" => some (.exported true (.ok ()))
+  | "ok_str_from_cstr" => some (.exported true (.ok ()))
+  | _ => none
+
+def mismatchKind : String → Option K
+  | "mismatch_ksize" => some .MismatchKSizes
+  | "mismatch_moltype" => some .MismatchDNAProt
+  | "mismatch_scaled" => some .MismatchScaled
+  | "num_vs_scaled" => some .MismatchScaled
+  | "mismatch_seed" => some .MismatchSeed
+  | _ => none
+
+def errOr (k : Option K) : Out := match k with | some k => .err k | none => .ok ()
+
+/-- what the body of export `f` does on in-contract arguments of class `cls`
+    (read off the native API: which `Err` it returns, where it panics) -/
+def bodyOutcome (f cls : String) : Out :=
+  let e (k : K) : Out := .err k
+  let isIn (l : List String) := l.contains cls
+  match f with
+  -- helpers / error channel
+  | "sourmash_translate_codon" => if isIn ["empty", "len5"] then e .InvalidCodonLength else .ok ()
+  | "sourmash_str_from_cstr" => if cls == "bad_utf8" then e .Utf8Error else .ok ()
+  -- HyperLogLog
+  | "hll_with_error_rate" => if cls == "valid" then .ok () else e .HLLPrecisionBounds
+  | "hll_cardinality" => if cls == "default" then .panic else .ok ()
+  | "hll_similarity" | "hll_containment" | "hll_intersection_size" =>
+    if isIn ["default", "mismatch_p4"] then .panic else .ok ()
+  | "hll_add_sequence" => if cls == "invalid" then e .InvalidDNA else if cls == "default" then .panic else .ok ()
+  | "hll_add_hash" => if cls == "default" then .panic else .ok ()
+  | "hll_merge" =>
+    if cls == "mismatch_ksize" then e .MismatchKSizes else if cls == "mismatch_p" then e .MismatchNum else .ok ()
+  | "hll_update_mh" => if cls == "default" then .panic else .ok ()
+  | "hll_matches" => if isIn ["default", "p4"] then .panic else .ok ()
+  | "hll_from_path" | "nodegraph_from_path" =>
+    if isIn ["missing", "directory"] then e .NifflerError else if cls == "garbage" then .panic
+    else if cls == "bad_utf8" then e .Utf8Error else .ok ()
+  | "hll_from_buffer" | "nodegraph_from_buffer" =>
+    if cls == "empty" then e .NifflerError else if cls == "garbage" then .panic
+    else if cls == "truncated" then e .IOError else .ok ()
+  | "hll_save" | "nodegraph_save" => if cls == "missing_dir" then e .IOError else .ok ()
+  -- KmerMinHash
+  | "kmerminhash_add_sequence" | "kmerminhash_seq_to_hashes" => if cls == "invalid" then e .InvalidDNA else .ok ()
+  | "kmerminhash_add_protein" => if cls == "dna_mh" then e .InvalidHashFunction else .ok ()
+  | "kmerminhash_add_hash" | "kmerminhash_add_word" => if cls == "abund_overflow" then .panic else .ok ()
+  | "kmerminhash_add_hash_with_abundance" => if cls == "max_abund" then .panic else .ok ()
+  | "kmerminhash_get_abunds" => if cls == "no_track" then .panic else .ok ()
+  | "kmerminhash_enable_abundance" | "kmerminhash_hash_function_set" =>
+    if cls == "nonempty" then e .NonEmptyMinHash else .ok ()
+  | "kmerminhash_merge" | "kmerminhash_intersection" | "kmerminhash_jaccard" => errOr (mismatchKind cls)
+  | "kmerminhash_count_common" | "kmerminhash_similarity" =>
+    if cls == "downsample_num" then e .MismatchScaled else errOr (mismatchKind cls)
+  | "kmerminhash_angular_similarity" =>
+    if isIn ["compat", "empty"] then e .NeedsAbundanceTracking
+    else if cls == "abund_overflow" then .panic else errOr (mismatchKind cls)
+  -- Nodegraph
+  | "nodegraph_with_tables" => if cls == "size0" then .panic else .ok ()
+  | "nodegraph_count" | "nodegraph_get" | "nodegraph_matches" | "nodegraph_update_mh" =>
+    if cls == "zero_len_table" then .panic else .ok ()
+  | "nodegraph_count_kmer" | "nodegraph_get_kmer" => if cls == "valid" then .ok () else .panic
+  | "nodegraph_expected_collisions" => if isIn ["default", "zero_tables"] then .panic else .ok ()
+  -- Signature
+  | "signature_add_sequence" => if cls == "invalid" then e .InvalidDNA else .ok ()
+  | "signature_add_protein" => if cls == "dna_sig" then e .InvalidHashFunction else .ok ()
+  | "signature_first_mh" => if isIn ["empty_sig", "hll_sketch"] then e .Internal else .ok ()
+  | "signature_eq" => if cls == "empty" then .panic else .ok ()
+  | "signatures_load_path" =>
+    if cls == "bad_moltype" then .panic else if cls == "missing" then e .NifflerError
+    else if cls == "garbage" then e .SerdeError
+    else if isIn ["bad_utf8", "moltype_bad_utf8"] then e .Utf8Error else .ok ()
+  | "signatures_load_buffer" =>
+    if isIn ["bad_moltype", "bad_molecule", "hll_sketch"] then .panic
+    else if cls == "empty" then e .NifflerError else if cls == "garbage" then e .SerdeError else .ok ()
+  -- ZipStorage
+  | "zipstorage_new" =>
+    if isIn ["missing", "empty_path", "directory"] then e .IOError else if cls == "not_a_zip" then .panic
+    else if cls == "bad_utf8" then e .Utf8Error else .ok ()
+  | "zipstorage_load" =>
+    if cls == "missing_entry" then e .StorageError else if cls == "bad_utf8" then e .Utf8Error else .ok ()
+  | "zipstorage_set_subdir" => if cls == "bad_utf8" then e .Utf8Error else .ok ()
+  -- RevIndex
+  | "revindex_new_with_sigs" =>
+    if isIn ["empty_sigs", "empty_queries", "queries_threshold0_mismatch", "template_mismatch"] then .panic else .ok ()
+  | "revindex_new_with_paths" => if isIn ["missing", "empty_paths", "garbage"] then .panic else .ok ()
+  | "revindex_search" => if cls == "large_mh" then .panic else .ok ()
+  | "revindex_gather" => if isIn ["large_mh", "mismatch_ksize"] then .panic else .ok ()
+  | _ => .ok ()
+
+def showCall (r : Option (Chan K)) (cmp : String) : String :=
+  match r with
+  | none => "abort"
+  | some s =>
+    let code := errGetLastCode fromError s
+    let msg := if (errGetLastMessage s).isSome then 1 else 0
+    let cleared := errGetLastCode fromError (errClear s)
+    s!"ret {cmp} code={code} msg={msg} cleared={cleared}"
+
+/-- a `call` scenario as calls of the state machine: what the child does before the export under
+    test (only the error-channel scenarios need a failing call first), then the export itself -/
+def scenarioCalls (f cls : String) (guarded : Bool) : List (Call K) :=
+  let pre : List (Call K) :=
+    if cls == "after_error" then [.exported true (.err .InvalidCodonLength)] else []
+  let c : Call K := match f with
+    | "sourmash_init" => .init
+    | "sourmash_err_clear" => .clear
+    | "sourmash_err_get_last_code" => .getCode
+    | "sourmash_err_get_last_message" => .getMessage
+    | "sourmash_err_get_backtrace" => .getBacktrace
+    | _ => .exported guarded (bodyOutcome f cls)
+  pre ++ [c]
+
+structure St where
+  chan : Option (Chan K) := some Chan.fresh     -- `none`: the (model) process aborted
+  /-- history since the first `sourmash_init`, most recent first (`none` before it) -/
+  hist : Option (List (Call K)) := none
+  /-- what was stored when `sourmash_init` was first called -/
+  dflt : Option K := none
+
+def codeOf (o : Option K) : Nat := match o with | none => 0 | some k => fromError k
+
+def stepC20 (st : St) (ws : List String) : St × Resp :=
   match ws with
-  | "case" :: _ => (s, { model := "ok" })
-  | _ => (s, { model := "bad-op" })
+  | "case" :: _ => ({}, { model := "ok" })
+  | ["call", f, cls, flag, _seed] =>
+    let cmp := if flag == "cmp" then "same" else "-"
+    let s0 : Chan K := sourmashInit Chan.fresh
+    match exportGuarded f with
+    | none => (st, { model := "no-such-export", spec := "-" })
+    | some g =>
+      (st, { model := showCall (run .Panic s0 (scenarioCalls f cls g)) cmp,
+             spec := showCall (run .Panic s0 (scenarioCalls f cls true)) cmp })
+  | [name] =>
+    match seqCall name, st.chan with
+    | none, _ => (st, { model := "unknown-step" })
+    | _, none => (st, { model := "dead" })
+    | some c, some ch =>
+      match step .Panic ch c with
+      | none => ({ st with chan := none }, { model := "abort", spec := "-" })
+      | some ch' =>
+        -- specification side: history since the first init
+        let (hist, dflt) := match st.hist, c with
+          | none, .init => (some [], ch.last)
+          | none, _ => (none, none)
+          | some h, _ => (some (c :: h), st.dflt)
+        let pre := match c with
+          | .getMessage => s!"msg={if (errGetLastMessage ch').isSome then 1 else 0} "
+          | .getBacktrace => "bt=0 "
+          | _ => ""
+        let spec := match hist with
+          | none => "-"
+          | some h =>
+            let l := specLast .Panic dflt h
+            let pre := match c with
+              | .getMessage => s!"msg={if l.isSome then 1 else 0} "
+              | .getBacktrace => "bt=0 "
+              | _ => ""
+            s!"{pre}code={codeOf l}"
+        ({ chan := some ch', hist := hist, dflt := dflt },
+         { model := s!"{pre}code={errGetLastCode fromError ch'}", spec := spec })
+  | _ => (st, { model := "bad-op" })
 
-def main : IO Unit := Driver.run () stepC20
+def main : IO Unit := Driver.run {} stepC20
